@@ -123,6 +123,16 @@ fn main() {
         }
         out
     });
+    if cx.is_replay() {
+        // a replay runs only the named case: the circuit sizes it depends on are computed here
+        for (_, (si, c)) in &kcases {
+            if !env.ks.lock().unwrap().contains_key(&(*si, *c)) {
+                if let Ok(k) = vg::find_k(&subjects[*si], *c) {
+                    env.ks.lock().unwrap().insert((*si, *c), k);
+                }
+            }
+        }
+    }
     let ks = env.ks.lock().unwrap().clone();
     cx.extra("verifier_circuit_K", json!(ks.iter().map(|((si, c), k)| json!({"subject": subjects[*si].name, "collapsed": c, "K": k})).collect::<Vec<_>>()));
     // corruptions
@@ -232,7 +242,7 @@ fn main() {
     // ------------------------------------------------------------------------------------ (d)
     let t_d = Instant::now();
     let c_d = process_cpu_s();
-    let srs_k = 15;
+    let srs_k = if thorough { 15 } else { 14 };
     let srs_big = (*vfam::api::setup(srs_k, seed)).clone();
     let mut aggs: Vec<agg::AggSubject> = vec![];
     let mut setups: Vec<(&str, Box<dyn Fn() -> Result<agg::AggSubject, String> + Send + Sync + '_>)> = vec![
@@ -322,18 +332,41 @@ fn main() {
         if let Some(other) = &other {
             cx.worker_rayon_threads = Some(8);
             let s = &subjects[0];
-            let benv = vg::BEnv { env: &env, si: 0, s, other, k: ks[&(0, true)], legit: vg::legit_set(&env, 0, s), n_cells: Mutex::new(0) };
+            let benv = vg::BEnv { env: &env, si: 0, s, other, k: ks[&(0, true)], legit: vg::legit_set(&env, 0, s), n_cells: Mutex::new(0), effective: Mutex::new(vec![]) };
             cx.require(other.vk.transcript_repr() == s.vk.transcript_repr(), "the 'other proof' must be for the same verifying key");
             let mut b1 = vec![("valid+instance-edits".to_string(), vg::BCase::ValidAndInstanceEdits)];
             for c in light[0].iter().filter(|c| ["el0G/group+G", "inst-c0-r0+1"].contains(&c.name.as_str()) || c.name.ends_with("S/scalar+1")).take(3) {
                 b1.push((format!("corrupted/{}", c.name), vg::BCase::CorruptedOwnAcc(c.clone())));
             }
             cx.run_cases_with("b-constraint-level", &b1, 2, |c| vg::eval_b(&benv, c));
-            let n_cells = *benv.n_cells.lock().unwrap();
+            // number of advice assignments of the verifier circuit (hook counter), from a witness-only run
+            let n_cells = {
+                midnight_proofs::verif::reset();
+                let _ = vcore::catch(|| tracer::trace(&gadget::VerifierCircuit::new(&s.vk, &s.committed, &s.plain, &s.proof, true)).map(|_| ()));
+                let n = midnight_proofs::verif::counters().0;
+                midnight_proofs::verif::reset();
+                n
+            };
+            cx.require(cx.is_replay() || *benv.n_cells.lock().unwrap() == n_cells, "MockProver and the tracer must see the same number of advice assignments");
             cx.extra("verifier_circuit_advice_assignments", json!(n_cells));
             if n_cells > 0 {
-                let nf = 8u64;
-                let faults: Vec<(String, vg::BCase)> = (0..nf).map(|j| j * n_cells / nf + n_cells / (2 * nf)).map(|i| (format!("fault-cell{i}+1"), vg::BCase::Fault(i))).collect();
+                // scan a stride of cells with the witness-only tracer, then fully verify the
+                // circuits of (up to 8 of) the faults that reach the exposed accumulator
+                cx.worker_rayon_threads = Some(1);
+                let ns = 96u64;
+                let scan: Vec<(String, vg::BCase)> = (0..ns).map(|j| j * n_cells / ns + n_cells / (2 * ns)).map(|i| (format!("scan-cell{i}+1"), vg::BCase::FaultScan(i))).collect();
+                cx.run_cases("b-fault-scan", &scan, |c| vg::eval_b(&benv, c));
+                cx.worker_rayon_threads = Some(8);
+                let mut eff = benv.effective.lock().unwrap().clone();
+                eff.sort();
+                let step = (eff.len() / 8).max(1);
+                let faults: Vec<(String, vg::BCase)> = if cx.is_replay() {
+                    // the scan is not re-run in a replay: offer every scanned cell, the replay key selects one
+                    (0..ns).map(|j| j * n_cells / ns + n_cells / (2 * ns)).map(|i| (format!("fault-cell{i}+1"), vg::BCase::Fault(i))).collect()
+                } else {
+                    eff.iter().step_by(step).take(8).map(|i| (format!("fault-cell{i}+1"), vg::BCase::Fault(*i))).collect()
+                };
+                cx.extra("b_fault_scan", json!({"cells_scanned": ns, "faults_reaching_the_exposed_accumulator": eff.len(), "fully_verified": faults.len()}));
                 cx.run_cases_with("b-faults", &faults, 2, |c| vg::eval_b(&benv, c));
             }
             cx.require(cx.class_count("b-constraint-level:valid:sat") == 1, "the valid proof must satisfy the verifier circuit");
